@@ -284,5 +284,12 @@ def run_case(ctx, k, rng):
         if mode == "iso" or fb == "big-iso":
             ctx.check("isomorphic graphs get lower bound 0", lb == 0.0, lower=lb, schedule=sname)
         judge_witnesses(ctx, lb, ub, cap, DX, DY, len(A), len(B))
+        if isinstance(s, int) and mode in ("exact", "trees", "witness") and rng.random() < 0.3:
+            # the only randomness is the global NumPy generator: the same seed must reproduce the same pair of bounds
+            try:
+                out2, _ = call(ctx, A, B, mso, s)
+                ctx.check("same NumPy seed => same bounds", (float(out2[0]), float(out2[1])) == (lb, ub), first=[lb, ub], second=out2, seed=s)
+            except Exception as e:
+                ctx.exception("same NumPy seed => same bounds", e)
     ctx.check("lower bound independent of the random stream", len(lbs) <= 1, lowers=sorted(lbs))
     ctx.note("wall_ms:" + mode, int(1000 * (_time.monotonic() - _t0)))
